@@ -94,6 +94,10 @@ def gen_no_escape(src, FN):
         def assign(self, tgt, v, st, k, K):
             if isinstance(tgt, ast.Attribute) and ast.unparse(tgt.value) == 'res': return k(st)
             return super().assign(tgt, v, st, k, K)
+        def ev_Call(self, e, st, k, K):
+            if isinstance(e.func, ast.Name) and e.func.id in st.env and is_expr(st.env[e.func.id]) and e.func.id not in self.handlers:
+                return self.ev_list(e.args, st, lambda s2, a_: h_supercls(self, s2, e, None, a_, {}, k, K), K)          # a class object held in a local (e.g. an MRO entry): constructing it is user code
+            return super().ev_Call(e, st, k, K)
         def find_handler(self, name, recv=None):
             if name.endswith('.format') or name.endswith('.join'): return h_format if name.endswith('.format') else h_pure('joined')
             if name.endswith('.append'): return h_append
@@ -106,13 +110,13 @@ def gen_no_escape(src, FN):
         ex.block(s.body, it, lambda s3: None, K2)          # arbitrary iteration; loops here modify only locals (safe_exc_args.append)
         return k(st.fork())
     H = {'repr': h_repr, 'str': h_str, 'type': h_pure('type'), 'traceback.format_stack': h_pure('stack'), 'isinstance': h_isinstance, 'coder.loads': h_coder, 'coder.dumps': h_pure('dumped') if False else h_coder,
-         'supercls': h_supercls, 'getattr': h_pure('attr'), 'tuple': h_pure('tuple'), '_itermro': h_pure('mro'), 'id': h_id, 'cls': h_pure('wrapper'), 'res.with_traceback': h_pure('res'),
+         'supercls': h_supercls, 'getattr': h_pure('attr'), 'tuple': h_pure('tuple'), '_itermro': h_pure('mro'), 'id': h_id, 'cls': h_pure('wrapper'), '*.with_traceback': h_pure('res'),
          'SEEN_EXCEPTIONS_CACHE.add': h_seen_add, 'SEEN_EXCEPTIONS_CACHE.discard': h_seen_discard, 'SEEN_EXCEPTIONS_CACHE.clear': h_seen_clear,
          'ExceptionRepr': h_pure('exception_repr'), '@for': h_for,
          # modular: callee contracts
          '_safe_str': c_total('safe_str'), 'safe_repr': c_total('safe_repr'), 'ensure_serializable': c_total('safe_args'), 'find_pickleable_exception': c_total('nearest'),
          'get_pickleable_exception': c_total('pickleable'), '_UnpickleableExceptionWrapper.from_exception': c_total('wrapper'), '_prepare_exception': c_prepare_rec}
-    ex = Ex(H)
+    ex = Ex(H); ex.inline_scope = (src, REL, None)
     exits = collections.Counter()
     def verify(fname, env, ghost=None, pre=()):
         st = State(); st.env = dict(env); st.ghost = dict(ghost or {}); st.pc = list(pre)
@@ -180,7 +184,7 @@ def gen_links(src, FN):
             return self.ev(e.test, st, lambda s, v: self.branch(s, truthy(v), lambda a: self.ev(e.body, a, k, K), lambda b: self.ev(e.orelse, b, k, K)), K)
     H = {'id': h_id, 'SEEN_EXCEPTIONS_CACHE.add': h_seen_add, 'SEEN_EXCEPTIONS_CACHE.discard': h_seen_discard, 'get_pickleable_exception': h_get_pickleable, 'coder.loads': h_coder, 'coder.dumps': h_coder,
          'type': h_type, 'getattr': h_getattr, 'ensure_serializable': h_ensure, '_prepare_exception': h_rec, 'ExceptionRepr': h_ExceptionRepr}
-    ex = Ex(H)
+    ex = Ex(H); ex.inline_scope = (src, REL, None)
     st = State(); st.env = {'exc': exc, 'coder': coder}; st.ghost = {'SEEN': Const('SEEN0', I2B), 'built': Val.none, 'pickleable': Val.none}
     st.pc += [Val.is_ref(exc), Val.a(exc) < st.heap.next, st.heap.next > 0, Not(st.ghost['SEEN'][Val.a(exc)])]
     h = st.heap; ea = Val.a(exc); cause, ctxt, supp, klass = h.field('__cause__')[ea], h.field('__context__')[ea], h.field('__suppress_context__')[ea], h.field('__class__')[ea]
@@ -229,6 +233,7 @@ def gen_links(src, FN):
             return super().find_handler(name, recv)
     ex2 = Ex2({'isinstance': h_isinstance, 'issubclass': h_issubclass, 'get_pickled_exception': lambda ex, st, e, r, a, kw, k, K: k(st, fresh('restored')), 'create_exception_cls': h_create_cls, 'getattr': h_getattr2,
                'exc_type.split': h_split, 'taskiq.exceptions.SecurityError': lambda ex, st, e, r, a, kw, k, K: k(st, new_exc(st, 'SecurityError')), 'Exception': h_Exception, 'exception_to_python': h_topy, '@for': h_for})
+    ex2.inline_scope = (src, REL, None)
     st2 = State(); rp = fresh('repr_obj'); st2.env = {'exc': rp, '__name__': STR.get('taskiq.serialization')}; st2.ghost = {'made': Val.none}
     st2.pc += [Val.is_ref(rp), Not(is_exc_inst(rp)), Val.a(rp) < st2.heap.next, st2.heap.next > 0]
     h2 = st2.heap; ra = Val.a(rp); rc, rx, rs = h2.field('exc_cause')[ra], h2.field('exc_context')[ra], h2.field('exc_suppress_context')[ra]
